@@ -33,7 +33,7 @@ PATCHES = 'kopf._cogs.structs.patches'
 
 P_MV = ['C02', 'C04', 'C05', 'C06', 'C08', 'C09', 'C10', 'C15', 'C16', 'C17', 'C18']        # MappingView.*
 P_MMV = ['C04', 'C05', 'C08', 'C11', 'C16', 'C18']                                             # MutableMappingView.*
-P_RMV = ['C05', 'C06', 'C07', 'C08', 'C09', 'C10', 'C17']                                      # ReplaceableMappingView._replace_with
+P_RMV = ['C05', 'C06', 'C07', 'C08', 'C09', 'C10', 'C17', 'C03', 'C04', 'C02', 'C14', 'C15']                                      # ReplaceableMappingView._replace_with
 P_PATCH = ['C02', 'C03', 'C05', 'C06', 'C07', 'C08', 'C09', 'C11', 'C13', 'C15', 'C16', 'C18']  # Patch.*
 P_META = ['C04', 'C05', 'C08', 'C16', 'C18']                                                   # MetaPatch.*
 
@@ -863,3 +863,58 @@ def V18(vc):
     vc.ensure('substanza.same_view_at_every_access', key in again and _same_tree(again.get(key, default), value)
               and _same_tree(dict(_prop(C, other, meta)), md.get(other, {})))
     return ('write', mlabel, sub, key, vlabel)
+
+
+# =========================================================================== V14b: bodies.Body as a replaceable view
+@harness('V14b', targets=['kopf._cogs.structs.bodies.Body', 'kopf._cogs.structs.bodies.Meta'], props=P_RMV,
+         clauses=['body_views_follow_every_replacement', 'replacement_is_unconditional'],
+         canaries=['canary.views_never_change'],
+         trusted=['the real bodies.Body / Meta / Spec / Status classes run natively on concrete raw bodies with symbolic leaf values'],
+         assumes=['V14b: raw bodies of the enumerated shapes (metadata with/without resourceVersion, annotations, labels; spec; status); '
+                  'resourceVersions from {absent, "5", "9", "10", "99999", "100000", "abc"} in every order'])
+def V14b(vc):
+    """
+    bodies.Body is the ReplaceableMappingView the framework keeps per object with daemons/timers (`live_fresh_body`) and refreshes
+    with `_replace_with(raw_body)` at EVERY event; the same object is then the body of the change handlers (C07: the barrier is
+    cleared by version EQUALITY, assuming the processor serves exactly that event's body), of cause detection (C03-C05: the
+    stored last-handled state is read through body.metadata.annotations) and of the daemons (C09, C10).
+      body_views_follow_every_replacement   after _replace_with(new): the body, body.metadata / body.meta, .metadata.annotations,
+                                            .metadata.labels, .spec and .status -- views made BEFORE the replacement -- all show
+                                            `new`, whatever they were built over (C03-8/C04-8/C05-8: views bound to the raw dict);
+      replacement_is_unconditional          whatever the resourceVersions of the old and the new source are -- absent, equal,
+                                            "older" (a re-listing may legitimately go back), longer or shorter strings (C07-8:
+                                            '10' < '9' as strings).
+    """
+    from kopf._cogs.structs import bodies
+    versions = [None, '5', '9', '10', '99999', '100000', 'abc']
+    v_old = versions[vc.nondet(len(versions), 'resourceVersion of the first source')]
+    v_new = versions[vc.nondet(len(versions), 'resourceVersion of the new source')]
+
+    def raw(tag, version, full):
+        meta = {'name': 'n', 'uid': f'uid-{tag}'}
+        if version is not None:
+            meta['resourceVersion'] = version
+        if full:
+            meta['annotations'] = {'kopf.zalando.org/last-handled-configuration': vc.str(f'{tag}.last-handled'), 'a': vc.str(f'{tag}.a')}
+            meta['labels'] = {'l': vc.str(f'{tag}.l')}
+        d = {'metadata': meta, 'spec': {'x': vc.str(f'{tag}.x')}}
+        if full:
+            d['status'] = {'s': vc.str(f'{tag}.s')}
+        return d
+    first = raw('old', v_old, vc.nondet(2, 'first source: full / bare') == 0)
+    new = raw('new', v_new, vc.nondet(2, 'new source: full / bare') == 0)
+    body = bodies.Body(first)
+    views = dict(meta=body.meta, metadata=body.metadata, annotations=body.metadata.annotations, labels=body.metadata.labels,
+                 spec=body.spec, status=body.status)
+    r = body._replace_with(new)
+
+    def shows(view, src):
+        return dict(view) == dict(src)
+    ok = (r is None and dict(body) == new and shows(views['meta'], new['metadata']) and shows(views['metadata'], new['metadata'])
+          and shows(views['annotations'], new['metadata'].get('annotations', {})) and shows(views['labels'], new['metadata'].get('labels', {}))
+          and shows(views['spec'], new['spec']) and shows(views['status'], new.get('status', {}))
+          and body.metadata.get('resourceVersion') == v_new and body.meta.annotations.get('a') is new['metadata'].get('annotations', {}).get('a'))
+    vc.ensure('body_views_follow_every_replacement', ok)
+    vc.ensure('replacement_is_unconditional', body.get('metadata') is new['metadata'] and body.metadata.get('uid') == 'uid-new')
+    vc.canary('canary.views_never_change', views['metadata'].get('uid') == 'uid-old')
+    return ('replaced', v_old, v_new)
